@@ -231,6 +231,9 @@ CHECKS["C14"] = {
         {"name": "c14::props_total_dangling", "bound": "1 space (3 kinds, inside/outside), 1 triangular wall (space link valid/nil/absent, neighbour none/valid/absent, 4 boundary kinds, 3 tilts, construction absent), 1 window (wall valid/absent, sizes in {-1..2}, construction absent), 1 bridge (l, psi in {-1,0,1})",
          "kani_args": NOOVF, "cbmc_args": FS, "stubs": FMT + ROUND + FSH, "timeout_quick": 1200, "mem_gb": 40,
          "functions": ["EnergyProps::from(&Model)", "KData::from", "N50Data::from"]},
+        {"name": "c14::finite_when_sane", "bound": "closed model: 1 space (3 kinds, multiplier {1,2}, height {2,3,4}), exterior floor side 1..4 and exterior wall with one window, resolvable constructions on dyadic grids, 1 bridge, building ventilation and blower-door value present or absent",
+         "kani_args": NOOVF, "cbmc_args": FS2K, "stubs": FMT + ROUND + FSH, "timeout_quick": 1500, "mem_gb": 40,
+         "functions": ["EnergyProps::from(&Model)", "KData::from", "N50Data::from", "Wall::u_value", "WinCons::u_value"]},
     ],
 }
 
